@@ -250,20 +250,41 @@ func Verif_C16_R2_MessageCodec() {
 	vsym.Reach("end")
 }
 
-// R3c: truncation of the generic stream, and the size limit.
+// R3c: truncation of the generic stream (two messages on one decoder, cut at any byte), and the size limit.
 func Verif_C16_R3_MessageCodec_Truncation() {
 	var buf bytes.Buffer
 	enc := &messageEncoder{w: &buf}
-	typ := raftpb.MessageType(c16Small("type"))
-	vsym.Assume(typ <= 18)
-	m := raftpb.Message{Type: typ, From: c16Small("from"), To: c16Small("to"), Term: c16Small("term"),
-		Entries: c16EntriesL(1, 2)}
-	vsym.Assert(enc.encode(&m) == nil, "encode")
+	var ends []int
+	for i := 0; i < 2; i++ {
+		typ := raftpb.MessageType(c16Small("type"))
+		vsym.Assume(typ <= 18)
+		m := raftpb.Message{Type: typ, From: c16Small("from"), To: c16Small("to"), Term: c16Small("term")}
+		if i == 0 {
+			m.Entries = c16EntriesL(1, 2)
+		} else {
+			// the second message is as long as the first or shorter (the decoder reuses its buffer)
+			switch vsym.Choose("shape2", 3) {
+			case 0:
+				m.Entries = c16EntriesL(1, 2)
+			case 1:
+				m.Entries = c16EntriesL(1, 1)
+			}
+		}
+		vsym.Assert(enc.encode(&m) == nil, "encode")
+		ends = append(ends, buf.Len())
+	}
 	n := buf.Len()
 	cut := vsym.Choose("cut", n)
 	dec := newMessageDecoder(bytes.NewReader(append([]byte(nil), buf.Bytes()[:cut]...)))
-	_, err := dec.decode()
-	vsym.Assert(err != nil, "a truncated message is an error")
+	for i := 0; i < 2; i++ {
+		_, err := dec.decode()
+		if cut >= ends[i] {
+			vsym.Assert(err == nil, "a message that is completely in the stream decodes")
+			continue
+		}
+		vsym.Assert(err != nil, "a truncated message is an error, not a message")
+		break
+	}
 	// size limit
 	l := vsym.U64("len")
 	vsym.Assume(l > readBytesLimit)
@@ -272,7 +293,7 @@ func Verif_C16_R3_MessageCodec_Truncation() {
 		lb[i] = byte(l >> (8 * uint(7-i)))
 	}
 	dec2 := newMessageDecoder(bytes.NewReader(lb[:]))
-	_, err = dec2.decode()
+	_, err := dec2.decode()
 	vsym.Assert(err == ErrExceedSizeLimit, "oversized length prefix is refused before allocating")
 	vsym.Reach("end")
 }
